@@ -15,7 +15,8 @@ open Mahotas.Generated.Py Mahotas.C13
     `_as_labeled` / `_convert_labeled` keep the labels (their conversions and shape checks belong to the guards),
     `labeled.max()` is the model's `maxOf`, `np.empty(n, dtype)` has `n` slots, the kernels `ksum` / `kmm` are parameters
     (any kernel: they receive the label list and the number of slots), `astype(np.uint32)` reduces modulo 2^32,
-    `fullhistogram` is the counting kernel, `np.where(c)` lists the indices of the non-zero entries, `remove_regions` /
+    `fullhistogram` is the counting kernel, `np.unique` is the model's `sortedUnique` and `_labeled.remove_regions` the binary
+    search of every non-zero label in that sorted array, `np.where(c)` lists the indices of the non-zero entries, `remove_regions` /
     `_labeled.is_same_labeling` / `borders` are the model's kernels (`modeOf` reads the mode string, `offsOf n` the
     neighbourhood of connectivity `n`). -/
 abbrev c13Prims (modeOf : String → Mode) (offsOf : Nat → List (List Int))
@@ -37,6 +38,10 @@ abbrev c13Prims (modeOf : String → Mode) (offsOf : Nat → List (List Int))
   fullhistogram := fun l => fullHistogram false l.2
   nonzero_idx := fun c => ((List.range c.length).filter fun i => c.getD i 0 ≠ 0).map fun (i : Nat) => (i : Int)
   remove_regions := fun l r _ => (l.1, removeRegions l.2 r)
+  as_labeled_self := fun l _ _ => l
+  as_intc := fun r => r
+  unique := sortedUnique
+  k_remove := fun l r => (l.1, l.2.map fun v => if v ≠ 0 && binarySearch r.toArray v then 0 else v)
   ne0 := fun l => (l.1, l.2.map (· != 0))
   and_ := fun a b => (a.1, (a.2.zip b.2).map fun x => x.1 && x.2)
   borders := fun b n mode => (b.1, bordersModel (modeOf mode) b.1 (b.2.map fun v => if v then 1 else 0) (offsOf n))
@@ -84,6 +89,11 @@ theorem pybody_labeled_labeled_size_eq_model (l : List Nat × List Int) :
 theorem pybody_labeled_remove_regions_where_eq_model (l : List Nat × List Int) (c : List Int) (inplace : Bool) :
     labeled_remove_regions_where (c13Prims modeOf offsOf ksum kmm) l c inplace = (l.1, removeRegionsWhere l.2 c) := by
   simp only [labeled_remove_regions_where, removeRegionsWhere]
+
+/-- **`labeled.remove_regions` (current source) = `C13.removeRegions`**: `np.unique` first, then the kernel's binary search -/
+theorem pybody_labeled_remove_regions_eq_model (l : List Nat × List Int) (r : List Int) (inplace : Bool) :
+    labeled_remove_regions (c13Prims modeOf offsOf ksum kmm) l r inplace = (l.1, removeRegions l.2 r) := by
+  simp only [labeled_remove_regions, removeRegions]
 
 /-- **`labeled.is_same_labeling` (current source) = `C13.isSameLabelingShaped`**: maps of different shapes are never the same -/
 theorem pybody_labeled_is_same_labeling_eq_model (l0 l1 : List Nat × List Int) :
